@@ -107,9 +107,8 @@ _C01_I = [
     H('i_point', 'H_i_get_remove_a0', 'get(k0) pre-empted at any hook, remove(k1) runs there completely (same or different key): results linearizable, an OK get has a non-null value with exactly the stored bytes, quiescent state well-formed, no lock left',
       'T1(2); A=get, B=remove; hook sites of the get body and of find_border, visits 1 and 2 (the sites inside the entry loop of get_lv_of exceed 24 GB per query and are not registered); ' + I2,
       data=4, sync=2, timeout=3000, tier='thorough', windows=dict(funcs=['op_getEi$', 'L11find_border'], visits=(1, 2))),
-    H('i_point', 'H_i_get_remove_a1', 'remove(k1) pre-empted at any hook, get(k0) runs there completely: the reader sees the old or the new state at every intermediate point of the writer',
-      'T1(2); A=remove, B=get; hook sites of border_node::delete_at (slot clear / permutation update / value retirement), first visit; ' + I2,
-      data=4, sync=2, timeout=3000, tier='thorough', windows=dict(funcs=['border_node9delete_atE'], visits=(1,))),
+    # H_i_get_remove_a1 (remove pre-empted, get atomic): inside remove's critical section the reader cannot complete (it waits for
+    # the dirty bits), so no two-switch schedule exists there - the harness is vacuous at those sites and is not registered
 ]
 
 NAMES = 'storage names: all byte strings of 0..8 bytes (binary, empty, prefixes of each other), first 2 bytes of the slice symbolic'
@@ -204,7 +203,7 @@ LEVEL_TEXT = {
                      'solver queries) the WHOLE other operation (B) is called from inside the hook, then A continues with its optimistic retries enabled. Keys, values and node contents are symbolic. '
                      'Asserted: results equal one of the serial orders, an OK get returns a non-null pointer to exactly the stored bytes, the quiescent node is well-formed, no lock is left, nobody waits. '
                      'The solver schedule is replayed on the g++ build (B is called inside the same dynamic hook). This found the null-value defect of get (fixed, known_findings.json).',
-                note='Bounds: pair get||remove on T1(2) (quick: the hook sites of the get body, first visit; thorough: get body + find_border sites, two visits, and - roles swapped - the sites of border_node::delete_at with get as the atomic side; the sites inside the entry loop of get_lv_of cost > 24 GB per query and are not covered); at most two context switches, i.e. B is never suspended: '
+                note='Bounds: pair get||remove on T1(2) (quick: the hook sites of the get body, first visit; thorough: get body + find_border sites, two visits; the sites inside the entry loop of get_lv_of cost > 24 GB per query and are not covered); at most two context switches, i.e. B is never suspended: '
                      'a schedule in which B would have to wait for A or to retry on A\'s transient state needs a third switch and is outside the claim, as are put (insert/overwrite/split) pairs, '
                      'more than two operations, interior nodes and layers; <= 1 optimistic retry of A per path (an assertion reports if more are needed); SC at hook granularity. '
                      'The free-schedule sequentialization (coroutines, CTX contexts) of the same pair does not finish (DESIGN.md 11). The serial orders are the C02 harnesses.',
